@@ -24,9 +24,11 @@ diff = sh(f"git -C {wt} diff -- src").stdout
 assert diff.strip(), "no change in worktree"
 open(f"{wt}/patch.diff", "w").write(diff)
 r1 = sh(f"{PY} {wt}/{demo}", env=env, cwd=wt, timeout=900)
-sh(f"git -C {wt} stash")
+# no `git stash`: the stash is shared by all worktrees of /repo
+sh(f"git -C {wt} checkout -- src")
 r0 = sh(f"{PY} {wt}/{demo}", env=env, cwd=wt, timeout=900)
-sh(f"git -C {wt} stash pop")
+ap0 = sh(f"git -C {wt} apply {wt}/patch.diff")
+assert ap0.returncode == 0, ap0.stderr
 print("demo with change: rc", r1.returncode, "| without: rc", r0.returncode)
 tests = "skipped"
 if run_tests:
